@@ -32,7 +32,10 @@ MANIFEST = {
                   "Size change nothing) and C02_history_* (the same as an invariant over arbitrary histories of Size | Info | Encode "
                   "| EncodeSW, by induction over the operation list; C02_history_wf*: well-formedness is kept by every "
                   "operation), C02_c12_order (the boxes written in segment mode are, in number, order and length, those C12's "
-                  "encode_file lists for the structure reached), C02_c05_moof_size. SencBox (the box whose Encode/Info set a flag "
+                  "encode_file lists for the structure reached), C02_c05_moof_size / C02_c05_set_offsets (on C05's fragments with pairwise "
+                  "different write order numbers aset_offsets IS C05's set_offsets), C02_scan / C02_*_scan / C02_container_scan (a "
+                  "reader following the size fields from the first byte recovers exactly the boxes written, also behind the header "
+                  "of a written moof / traf). SencBox (the box whose Encode/Info set a flag "
                   "Size() depends on): C02_senc_flag_idem, C02_senc_built (EVERY history of AddSample from CreateSencBox, refused "
                   "samples included, gives a built_ok box), C02_senc (a senc_ok box is left alone by Info/Encode/EncodeSW, both "
                   "paths write the same Size() bytes with a correct size field), C02_senc_obox (it is a well-formed stateless "
